@@ -48,6 +48,9 @@ CASES = ["lower", "upper", "mixed"]
 SUPPORTED_PATH = os.path.join(VERIF_ROOT, "checks", "supported_set.json")
 
 
+REGISTER_LIKE = ["a", "A", "x", "Y", "s", "S", "b", "w", "L", "k_v"]
+
+
 def selftest() -> None:
     isa.selftest()
     assert len(SHAPES) == 47
@@ -138,8 +141,8 @@ def expected(m, shape, sfx, value):
     return ("op", b, w)
 
 
-def check_one(out: Outcome, m, shape, sfx, value, case, line, sub, stats=None):
-    res = driver.assemble_mem("*=0x008000\n" + line + "\n")
+def check_one(out: Outcome, m, shape, sfx, value, case, line, sub, stats=None, prelude=""):
+    res = driver.assemble_mem(prelude + "*=0x008000\n" + line + "\n")
     exp = expected(m, shape, sfx, value)
     shp = f"{shape[0]}{shape[1] or '-'}{shape[2] or '-'}"
     cell = (m, shape[0], canon(shape)[1], canon(shape)[2], exp[2] if exp[0] == "op" else 0)
@@ -253,6 +256,20 @@ def run_case(case) -> Outcome:
                     if check_one(out, m, shape, "", value, "lower", line, sub, stats):
                         nt += 1
                     ev += 1
+        # the operand written as one symbol, including names that look like registers or size suffixes: a name that
+        # is defined is an ordinary operand expression whatever it is called
+        for shape in SHAPES:
+            if shape[0] == "imp" or canon(shape) != shape:
+                continue
+            for value in (0x12, 0x1234, 0x12345):
+                for name in REGISTER_LIKE:
+                    for sfx in ("", "w"):
+                        line = render_line(m, shape, sfx, name, "lower")
+                        prelude = f"{name} := 0x{value:x}\n"
+                        sub = {"t": "one", "m": m, "shape": list(shape), "sfx": sfx, "v": value, "case": "lower", "text": name, "prelude": prelude}
+                        if check_one(out, m, shape, sfx, value, "lower", line, sub, stats, prelude=prelude):
+                            nt += 1
+                        ev += 1
         out.evals, out.nontrivial = ev, nt
         out.labels = [f"enum:{k}" for k in stats if not k.startswith("cell:")] + [k for k in stats if k.startswith("cell:")] + [f"mnemonic:{m}"]
         out.sample = {"mnemonic": m, "lines_tried": ev, "stats": dict(stats),
@@ -289,7 +306,7 @@ def run_case(case) -> Outcome:
         out = Outcome(evals=1)
         shape = tuple(case["shape"])
         line = render_line(case["m"], shape, case["sfx"], case.get("text") or "0x%x" % case["v"], case["case"])
-        out.nontrivial = bool(check_one(out, case["m"], shape, case["sfx"], case["v"], case["case"], line, case))
+        out.nontrivial = bool(check_one(out, case["m"], shape, case["sfx"], case["v"], case["case"], line, case, prelude=case.get("prelude", "")))
         return out
     if t == "expr":
         out = Outcome(evals=1)
